@@ -1,4 +1,68 @@
-"""C04 - refinement of the M container against its reference model (Engine H)."""
+"""C04 - MultiplexHypergraph: refinement + aggregation and overlap (Engine H)."""
+from .. import hist
+from ..core import Violation, short, tag
+from ..models import Model
 from ._refine import make
 
-globals().update(make("C04", "M"))
+
+def propose(g, model, name):
+    if name in ("d_aggregated", "d_overlap"):
+        return {"op": name}
+    return None
+
+
+def h_aggregated(w, a, op):
+    obj, model = w.actors[a]
+    try:
+        res = obj.aggregated_hypergraph()
+    except Exception as e:  # noqa
+        raise Violation("C04/derive/aggregated/raised", {"op": op, "exception": repr(e)})
+    exp = Model("H", model.weighted)
+    for n in model.nodes:
+        exp.nodes[n] = {}
+    for (ns, layer), (wt, md) in sorted(model.edges.items(), key=lambda kv: (sorted(tag(x) for x in kv[0][0]), tag(kv[0][1]))):
+        if ns in exp.edges:
+            if model.weighted:
+                exp.edges[ns][0] = exp.edges[ns][0] + wt
+            w.probe("aggregated_multi_layer_node_set")
+        else:
+            exp.edges[ns] = [wt if model.weighted else 1, {}]
+    hist.compare_derived("C04", "aggregated", "H", res, exp, w.U)
+    return len(exp.edges)
+
+
+def h_overlap(w, a, op):
+    from hypergraphx.measures.multiplex import edge_overlap
+
+    obj, model = w.actors[a]
+    sets = sorted({ns for (ns, layer) in model.edges}, key=lambda s: sorted(tag(x) for x in s))
+    absent = None
+    for key in w.probe_keys:
+        if key[0] not in sets:
+            absent = key[0]
+            break
+    n = 0
+    for ns in sets + ([absent] if absent is not None else []):
+        want = 0
+        for (ns2, layer), (wt, md) in model.edges.items():
+            if ns2 == ns:
+                want = want + wt
+        arg = w_rng_perm(ns)
+        try:
+            got = edge_overlap(obj, arg)
+        except Exception as e:  # noqa
+            raise Violation("C04/derive/overlap/raised", {"edge": short(arg), "exception": repr(e)})
+        if got != want:
+            raise Violation("C04/derive/overlap/value", {"edge": short(arg), "library": got, "expected": want})
+        n += 1
+    w.probe("overlap_queries", n)
+    return n
+
+
+def w_rng_perm(ns):
+    # reversed sorted order: "the order in which nodes are listed is irrelevant"
+    return tuple(sorted(ns, key=tag, reverse=True))
+
+
+globals().update(make("C04", "M", extra_ops=("d_aggregated", "d_overlap"), extra_propose=propose,
+                      handlers={"d_aggregated": h_aggregated, "d_overlap": h_overlap}))
